@@ -59,6 +59,18 @@ CHECKS = {
    text="Tens of thousands (quick) / ~10^6 (thorough) of generated programs of the fragment whose meaning the statement fixes are evaluated by a harness-side reference interpreter (shared cells, left-to-right call-by-value, state tree keyed by textual call site, self/mem/delay by definition) and by the VM; every output word must agree bitwise. The reference and the renderer are calibrated against 8 repository fixtures and their authors' expected vectors on every run.",
    note="The reference interpreter is the trusted base. The fragment excludes constructs the statement does not fix and the shapes of two VM findings found by this check (pinned with expected values). Only the VM is compared here; WASM is tied in by C01.",
    design="2.C02"),
+ "C06": dict(
+   category="exploration",
+   technique="metamorphic testing over histories: generated stateful programs x split points x repeated hot-swaps vs the uninterrupted run, on both runtimes",
+   text="Generated stateful programs are run for n0 samples, hot-swapped to a fresh compilation of the same source through DspRuntime::try_hot_swap (1-4 times at generated split points, including before the first sample), and every output word is compared with the uninterrupted run, on the VM and on the WASM runtime (payload built by the CLI's own builder through a hook).",
+   note="Programs whose globals depend on `now` or that keep state in closures created by main are outside the statement's domain and not generated. The CLI's subprocess compile path cannot be driven in-process.",
+   design="2.C06"),
+ "C07": dict(
+   category="fault_enumeration",
+   technique="stateful/model-based testing of edit histories (including injected compile failures) over voice-bank programs against a per-voice reference model",
+   text="Histories of 2-5 run/edit/hot-swap steps over programs built from six independent stateful voices with pairwise distinct state-cell shapes: insert, delete, replace a voice at any position, change a constant, nest a voice, or an edit that fails to compile (the fault, at any point of the history). A harness model of each voice predicts every channel of every sample: untouched voices continue, new ones start from zero, a failed compile changes nothing. Both runtimes.",
+   note="The voice library is small by design (distinct cell shapes keep 'untouched' unambiguous); a re-nested voice is not predicted. One open finding (WASM keeps the old channel count after a swap) is tolerated by comparing the common channel prefix.",
+   design="2.C07"),
 }
 
 NOT_YET = {
